@@ -115,6 +115,10 @@ class Program:
                 if en in self.enums:
                     for v in self.enums[en]["variants"]:
                         self.glob_variants[v["name"]] = en
+        # the extracted AST lives for the whole run: keep the cyclic collector from re-walking it
+        import gc
+        gc.collect()
+        gc.freeze()
 
     _uses = []
 
